@@ -439,7 +439,8 @@ func (f *FuncVC) nameAndRange(st *State, v *Val, base string) {
 				v.T = f.sc.define(base, sortOfKind(v.K), v.T)
 			}
 			if v.K == KMap {
-				f.fact(st, cmp(">=", v.T, "0"))
+				// a map value is nil (0) or the id of a map that exists already
+				f.fact(st, and(cmp(">=", v.T, "0"), cmp("<", v.T, st.wm)))
 			}
 		case KSlice:
 			for _, c := range v.Fs {
